@@ -652,6 +652,8 @@ class Interp:
                 return self.eval_const_fn(cv)
             if t == 'log::STATIC_MAX_LEVEL':
                 return EnumV('LevelFilter', 'Off', 0, ())
+            if key == 'None' and 'Option' in t:
+                return NONE
             # a constant item of another crate (SCREAMING_CASE) described by a model: its value
             if re.match(r'^[A-Z][A-Z0-9_]*$', key) and key in self.m.models:
                 return self.m.models[key](self, [], t)
@@ -911,6 +913,8 @@ class Interp:
         ctx = self.ctx
         if len(self.frames) > 200:
             raise BoundExceeded("call depth")
+        if fn.nargs == -1 and 'broken' in fn.debug:
+            raise Unsupported("MIR of %s could not be parsed: %s" % (fn.name, fn.debug['broken']))
         fr = Frame(fn, len(self.frames))
         for i, a in enumerate(args):
             fr.locals[i + 1] = a
